@@ -156,6 +156,7 @@ def draw_system(rng, seed: int, prop: str, *, families=("single",) * 6 + ("cross
         new = {"F0": [], "F1": [], "F2": [], "F3": []}
         bad = {"F0": [], "F1": [], "F2": [], "F3": []}
         params = models.draw_multi_params(rng, [a, b, c, a2, b2])
+    gen.sanitize_descs(descs)
     cfg.update(descs=descs, fits=fits, new=new, bad=bad, params=params)
     # "rotator focus" (half of the runs of classes that have a rotator): as many modes as the data allow, a flat
     # spectrum (so that the rotation re-ranks modes: the sorting bookkeeping only shows then) and a history
